@@ -801,3 +801,61 @@ Definition save_run (ws : list bytes) (failat : option nat) (open_fails rename_f
 Record attempt := { a_writes : list bytes; a_failat : option nat; a_open_fails : bool; a_rename_fails : bool }.
 Definition run_attempt (d : disk) (a : attempt) : disk :=
   fst (save_run (a_writes a) (a_failat a) (a_open_fails a) (a_rename_fails a) d).
+
+(** ------------------------------------------------------------------ *)
+(** * Foreground and background saves (RdbEngine::save / bgsave, rdb.rs:136-192; the auto-save
+      monitor, monitor.rs:71-121, calls bgsave and consults is_bgsave_in_progress).
+      bgsave: refused while [bgsave_in_progress]; otherwise the flag is set and a thread runs
+      [save]; the thread clears the flag after the [match] on the save's result, i.e. on success
+      AND on failure ([rdb_bgsave_clears_flag_after_match], regenerated from rdb.rs).
+      Events: a foreground save runs as a whole; a background save starts ([EvBgStart]) and
+      later finishes ([EvBgEnd]).  (Interleaved writes of a SAVE and a BGSAVE into the one
+      temporary file, and a save thread that panics, are not modelled: class save-race.) *)
+Record pstate := { ps_disk : disk; ps_flag : bool; ps_running : option attempt }.
+Inductive sv_event := EvSave (a : attempt) | EvBgStart (a : attempt) | EvBgEnd.
+Definition ps_init (d : disk) : pstate := {| ps_disk := d; ps_flag := false; ps_running := None |}.
+Definition ps_step (s : pstate) (e : sv_event) : pstate :=
+  match e with
+  | EvSave a => {| ps_disk := run_attempt (ps_disk s) a; ps_flag := ps_flag s; ps_running := ps_running s |}
+  | EvBgStart a =>
+      if ps_flag s then s        (* Err "Background save already in progress" *)
+      else {| ps_disk := ps_disk s; ps_flag := true; ps_running := Some a |}
+  | EvBgEnd =>
+      match ps_running s with
+      | Some a => {| ps_disk := run_attempt (ps_disk s) a; ps_flag := false; ps_running := None |}
+      | None => s
+      end
+  end.
+Definition bg_accepted (s : pstate) : bool := negb (ps_flag s).
+Definition ev_attempts (e : sv_event) : list attempt :=
+  match e with EvSave a => [a] | EvBgStart a => [a] | EvBgEnd => [] end.
+
+(** ------------------------------------------------------------------ *)
+(** * C10 (2): one key under a save that runs beside the command thread (write_snapshot,
+      rdb.rs:435-449).  The save thread reads the key in two steps, each under its own lock
+      acquisition: [storage.get] (shard write lock; a deep clone of the value, except that a
+      sorted set is shared by Arc) and then [storage.ttl] (shard read lock).  Client commands
+      are atomic with respect to each step and may run between them. *)
+Definition kstate := option (value * option Z).          (* absent | (value, deadline) *)
+Inductive cev := CSet (v : value) (dl : option Z) | CExpire (dl : Z) | CPersist | CDel.
+Definition cstep (s : kstate) (c : cev) : kstate :=
+  match c with
+  | CSet v dl => Some (v, dl)
+  | CExpire dl => match s with Some (v, _) => Some (v, Some dl) | None => None end
+  | CPersist => match s with Some (v, _) => Some (v, None) | None => None end
+  | CDel => None
+  end.
+(** what the save writes for the key: the value seen by [get] (the key is skipped when absent
+    then), with the deadline seen by [ttl] after the client events [between] *)
+Definition snapshot_key (at_get : kstate) (between : list cev) : option (value * option Z) :=
+  match at_get with
+  | None => None
+  | Some (v, _) =>
+      match fold_left cstep between at_get with
+      | Some (_, dl) => Some (v, dl)
+      | None => Some (v, None)          (* ttl of a missing key: None *)
+      end
+  end.
+(** the states the key went through during the window *)
+Fixpoint states_of (s : kstate) (l : list cev) : list kstate :=
+  match l with [] => [s] | c :: r => s :: states_of (cstep s c) r end.
